@@ -480,6 +480,10 @@ def accel_search(sp, rng, budget):
 # ---------------------------------------------------------------- the check
 def run(ctx):
     ctx.source_hash("sigpy/alg.py", "sigpy/app.py")
+    # tie by translation (DESIGN 2.8): gen/Gen_alg.v is regenerated from alg.py (translate_all job "alg") and compiled;
+    # its lemmas state generated Alg.update/done and every modelled _update/_done/__init__ == coq/model/Alg.v, Alg2.v
+    from tools import translate_alg
+    tie_broken = translate_alg.tie(ctx, ["alg"])    # obligations "translate:sigpy/alg.py (...)", "tie:generated solver steps == hand model"
     proof_ok = ctx.prove("Prop_C15.v")
     sp = core.import_sigpy()
     rng = ctx.rng
@@ -612,8 +616,8 @@ def run(ctx):
                           {"kind": "correspondence", "broken": "corr:driver:" + which, "config": cfg, "observed": h,
                            "expected": "exec_actions / run of coq/model/Alg.v on the observed (resid, flag) pairs"},
                           found_input=has_input, signature=sig)
-    if (not proof_ok or not corr_ok) and not ctx.violations:
-        broken = getattr(ctx, "broken_proof", {"theorem": "corr:coq-run", "log": "; ".join(ctx.notes)})
+    if (not proof_ok or not corr_ok or tie_broken) and not ctx.violations:
+        broken = getattr(ctx, "broken_proof", tie_broken or {"theorem": "corr:coq-run", "log": "; ".join(ctx.notes)})
         ctx.violation("proof obligation no longer checks: %s" % broken.get("theorem"),
                       {"kind": "proof", "broken": broken}, found_input=False, signature="C15:proof")
     ctx.coverage["rule"] = (
@@ -676,14 +680,16 @@ TRUSTED = [
     "correspondence (the per-update resid / breakdown flag are READ from the implementation, not recomputed, except for "
     "ConjugateGradient whose full float model is compared in C12)",
     "hand models of GradientMethod / PDHG / PowerMethod _update in coq/model/Alg.v used by the fixed-point theorems (PDHG with "
-    "scalar steps; elementwise division modelled as scaling by the reciprocal over R)",
+    "scalar and array steps, coq/model/Alg2.v; elementwise division modelled as scaling by the reciprocal over R)",
     "Stdlib real-number axioms (Reals) as reported by Print Assumptions",
 ]
 PROVED = ["see coq/props/Prop_C15.v (theorem list in obligation_list)"]
 VALIDATED = [
     "done() has no side effect in Python (checked on every query of every history; in the model done is a function)",
-    "NewtonsMethod / GerchbergSaxton / ADMM / AltMin / AugmentedLagrangianMethod: counters and stop flags by correspondence, "
-    "early-stop-is-fixed-point by the oracle only",
+    "NewtonsMethod, GerchbergSaxton (lamb = 0), PDHG with array steps and step adaptation: early stop = fixed point is PROVED "
+    "(C15_newton_early_stop_fixed, C15_gs_stop_fixed, C15_pdhg_array_early_stop_fixed, C15_pdhg_adapt_early_stop_fixed); "
+    "GerchbergSaxton with lamb != 0 (its stop rule ignores the Tikhonov term), ADMM / AltMin / AugmentedLagrangianMethod: counters and "
+    "stop flags by correspondence, early-stop-is-fixed-point by the oracle only",
     "GradientMethod theorems are about the hand model gm__update of coq/model/Alg.v (resid = max(||x-x_old||, ||x-z_old||)/alpha "
     "when accelerating); its tie to alg.py is the history correspondence (stop flags) + the corpus/search oracle here, and the "
     "float trajectory correspondence of C13's own model",
